@@ -65,6 +65,7 @@ def profile(name):
         p['p_finish_offset'] = 0.35
         p['ops_w']['create_asset'] = 1.0
         p['p_refuse'] = 0.2
+        p['p_raise_finish'] = 0.08
         p['p_same_instant'] = 0.5
     elif name == 'routing':       # C08
         p['stage_w'].update({'gates': 3.5, 'group': 3.5, 'nested_group': 1.2, 'flow': 1.2, 'batcher': 0.7,
@@ -216,6 +217,8 @@ class Gen:
             if rng.random() < self.p.get('p_cost_step', 0.2):
                 it['wo_cost_step'] = rng.choice([0.5, 1, -0.25, 2.5])
         # (else: the library's default work-order duration / capacity / cost of 0)
+        if it['ct'] > 0 and not it.get('ct_script') and rng.random() < self.p.get('p_raise_finish', 0):
+            it['raise_at'] = rng.choice([1, 2, 3, 5, 8])      # user code failing in the finish callback, once
         if rng.random() < self.p.get('p_refuse', 0):
             it['refuse'] = rng.choice([1, 2, 2, 3])    # every k-th planned stop is refused by a shutdown callback
         return self.add(it)
